@@ -32,7 +32,7 @@ def run_c04(tier, seed, rep, only_prop=False, scale=1):
     for k in range(n1):
         labels, span = G.gen_labels(rng, tier)
         o = dist_opts(rng, labels)
-        mode = "exact" if k % 2 else "float"
+        mode = "exact" if k % 2 and len(labels) <= 60 else "float"      # Fraction-keyed interval trees get very slow on large label sets
         try:
             cs.append((I.run_dist(labels, o, mode), {"kind": "dist", "labels": labels, "opts": o, "mode": mode}))
         except RecursionError:
@@ -43,7 +43,7 @@ def run_c04(tier, seed, rep, only_prop=False, scale=1):
     for k in range(n2):
         labels, span = G.gen_labels(rng, tier, nmax=100)
         o = G.gen_force_opts(rng, labels, span)
-        mode = "exact" if k % 2 else "float"
+        mode = "exact" if k % 2 and len(labels) <= 60 else "float"
         try:
             fl, _, _, _ = I.run_force(labels, o, mode, want_layer_lines=False)
         except RecursionError:
